@@ -98,7 +98,11 @@ def unsigned_leafs_ok(t, qleaf):
     if t[0] == 'call' and isinstance(t[1], str) and t[1].endswith(('::saturating_add', '::saturating_mul', '::wrapping_add')) and len(t[2]) == 2:
         return unsigned_leafs_ok(t[2][0], qleaf) and unsigned_leafs_ok(t[2][1], qleaf)      # a sum that cannot panic
     if t[0] == 'const':
-        return True
+        # small literal widths / separators; a constant near the top of the range (usize::MAX as a "no limit" marker) is not a size
+        try:
+            return 0 <= int(str(t[2])) < (1 << 32)
+        except (TypeError, ValueError):
+            return False
     if t[0] == 'cast' and t[1] == 'IntToInt':
         return unsigned_leafs_ok(t[4], qleaf)
     if t[0] == 'call' and isinstance(t[1], str) and t[1] in ('<usize as core::clone::Clone>::clone', '<u64 as core::clone::Clone>::clone') and t[2][0][0] == 'ref':
@@ -170,9 +174,50 @@ def size_fields(ctx, rep=None):
     return sz
 
 
-def size_leaf_for(ctx):
+def size_leaf_for(ctx, b=None):
     sz = size_fields(ctx)
-    return lambda t: _size_leaf(t, sz, ctx.cad)
+    if b is None:
+        return lambda t: _size_leaf(t, sz, ctx.cad)
+    # inside a private size function (`const fn base_size_hint(prefix_len: usize, key_len: usize, n: usize) -> usize`) a usize
+    # parameter is a size when every call site in the crate passes one
+    okp = _size_params(ctx, b)
+    return lambda t: _size_leaf(t, sz, ctx.cad) or (t[0] == 'param' and t[1] in okp)
+
+
+def _size_fn(cad, path):
+    """a private, non-trait function of the builder module returning usize whose parameters are usize values and/or the
+    formatter / metric value by reference: a size computation whose own arithmetic is discharged at its own sites"""
+    for b in cad.all_bodies:
+        if strip_generics(b.path) == path and b.def_kind in ('Fn', 'AssocFn') and b.impl_trait is None and b.locals[0] == 'usize' and \
+                not b.j.get('reachable') and b.arg_count >= 1 and strip_generics(b.path).startswith('cadence::builder::') and \
+                all(b.locals[i] == 'usize' or type_head(b.locals[i]) in (FORMATTER, 'cadence::builder::MetricValue') for i in range(1, b.arg_count + 1)):
+            return b
+    return None
+
+
+def _size_params(ctx, b):
+    memo = ctx.__dict__.setdefault('_size_params_memo', {})
+    if b.path in memo:
+        return memo[b.path]
+    memo[b.path] = set()        # recursion guard
+    out = set()
+    cad = ctx.cad
+    if _size_fn(cad, strip_generics(b.path)) is b:
+        sz = size_fields(ctx)
+        sites = [(y, bi) for y in cad.all_bodies for bi, t_ in y.calls() if t_.get('resolved') == b.path and not y.blocks[bi]['cleanup']]
+        for i in range(1, b.arg_count + 1):
+            if b.locals[i] != 'usize' or not sites:
+                continue
+            ok = True
+            for y, bi in sites:
+                ct = norm(Terms(y).call_term(bi))
+                a = peel_views(ct[2][i - 1]) if ct[0] == 'call' and len(ct[2]) >= i else ('unknown',)
+                if not unsigned_leafs_ok(a, size_leaf_for(ctx, y)):
+                    ok = False
+            if ok:
+                out.add(i)
+    memo[b.path] = out
+    return out
 
 
 def _len_like_local(cad, path):
@@ -197,6 +242,9 @@ def _size_leaf(t, sz, cad=None):
         return True
     if t[0] == 'call' and isinstance(t[1], str) and cad is not None and _len_like_local(cad, t[1]):
         return True
+    if t[0] == 'call' and isinstance(t[1], str) and cad is not None and _size_fn(cad, strip_generics(t[1])) is not None:
+        # a private size function applied to sizes
+        return all(unsigned_leafs_ok(peel_views(a), lambda x: _size_leaf(x, sz, cad)) for a in t[2])
     if t[0] == 'call' and isinstance(t[1], str) and strip_generics(t[1]).endswith(('cmp::Ord::min', 'cmp::min', 'cmp::Ord>::min')):
         return any(_size_leaf(peel_views(a), sz, cad) for a in t[2])      # min(a, b) <= a
     if t[0] == 'field' or t[0] == 'load':
@@ -566,7 +614,7 @@ def discharge(ctx, m, inv_ok, cr, b, bi, kind, term, T):
         # (3) unsigned sum containing L, minus small const, under a guard L >= 1
         if c[0] == 'const' and c[2] in ('1',):
             lens = [y for y in walk(a) if y[0] == 'call' and isinstance(y[1], str) and y[1].endswith('::len')]
-            if unsigned_leafs_ok(a, size_leaf_for(ctx)):
+            if unsigned_leafs_ok(a, size_leaf_for(ctx, b)):
                 for dt, labels, sbi in guards_of(T, bi) or []:
                     d = norm(dt)
                     # a private predicate helper (`self.has_tags()`): look through it
@@ -609,7 +657,7 @@ def discharge(ctx, m, inv_ok, cr, b, bi, kind, term, T):
                 if inv_ok:
                     return True, 'D1: written + bytes just buffered <= capacity by invariant I'
                 return False, 'written + n may overflow: invariant I does not hold'
-        if unsigned_leafs_ok(inner, size_leaf_for(ctx)):
+        if unsigned_leafs_ok(inner, size_leaf_for(ctx, b)):
             return True, 'D5: sum/product of in-memory lengths and constants'
         return False, 'arithmetic %s on caller-controlled values can overflow: panics with overflow checks, wraps without' % fmt(inner)[:120]
     if msg.startswith('BoundsCheck'):
